@@ -35,7 +35,7 @@ ASSUMPTIONS = [
     "XML well-formedness in the presence of control characters is required only with strip_control=True",
     "characters that XML 1.0 cannot represent at all (U+FFFE, U+FFFF, lone surrogates) are not generated",
 ]
-PROBES = ["page selection: none", "page selection: first", "page selection: odd", "xml with exported images", "sink:StringIO", "sink:TextIOWrapper", "sink:BytesIO", "sink:mode-w", "sink:mode-wb", "sink:duck", "codec:utf-16-le", "codec:utf-32-le", "codec:latin-1", "special char in text", "control char in text", "astral char in text", "special char in font name", "special char in figure name", "strip_control", "figure", "shape", "image", "boxes_flow None", "vertical text box"]
+PROBES = ["rotated or mirrored text", "earlier job aborted inside a form", "page selection: none", "page selection: first", "page selection: odd", "xml with exported images", "sink:StringIO", "sink:TextIOWrapper", "sink:BytesIO", "sink:mode-w", "sink:mode-wb", "sink:duck", "codec:utf-16-le", "codec:utf-32-le", "codec:latin-1", "special char in text", "control char in text", "astral char in text", "special char in font name", "special char in figure name", "strip_control", "figure", "shape", "image", "boxes_flow None", "vertical text box"]
 TIERS = {
     "quick": {"batches": 16, "runs": 350, "budget_s": 50},
     "thorough": {"batches": 128, "runs": 500, "budget_s": 1200},
@@ -124,7 +124,13 @@ def build_document(t, ctx):
         y = 720
         for _ in range(t.rint(1, 6, "lines")):
             k = t.draw(8, "item")
-            if k <= 3:
+            if k <= 3 and t.coin(15, 100, "rotated"):
+                # text under a rotated, mirrored or sheared text matrix: its size in the tree is not its box height
+                txt = bytes(t.rint(0x41, 0x4A, "ch") for _ in range(t.rint(1, 5, "len")))
+                tm = t.pick([b"0 1 -1 0", b"0 -1 1 0", b"-1 0 0 1", b"1 0 0 -1", b"0.7 0.7 -0.7 0.7", b"1 0 0.5 1", b"2 0 0 0.5"], "tm")
+                parts.append(b"BT /F%d %d Tf %s %d %d Tm (%s) Tj ET" % (t.rint(1, 2, "f"), t.pick([9, 12], "sz"), tm, t.rint(100, 500, "rx"), t.rint(100, 600, "ry"), txt))
+                ctx.probe("rotated or mirrored text")
+            elif k <= 3:
                 txt = bytes(t.rint(0x41, 0x4A, "ch") for _ in range(t.rint(1, 8, "len")))
                 x = t.pick([50, 50, 72, 320], "x")
                 parts.append(b"BT /F%d %d Tf %d %d Td (%s) Tj ET" % (t.rint(1, 2, "f"), t.pick([9, 10, 12], "sz"), x, y, txt))
@@ -346,6 +352,20 @@ def diff_tree(a, b, path="pages"):
     return None
 
 
+def _doomed():
+    o = {
+        1: {b"Type": Name(b"Catalog"), b"Pages": Ref(2, 0)},
+        2: {b"Type": Name(b"Pages"), b"Kids": [Ref(3, 0)], b"Count": 1},
+        3: {b"Type": Name(b"Page"), b"Parent": Ref(2, 0), b"MediaBox": [0, 0, 612, 792], b"Contents": Ref(4, 0), b"Resources": {b"XObject": {b"Fm1": Ref(5, 0)}}},
+        4: docs.content_stream(b"q /Fm1 Do Q"),
+        5: docs.content_stream(b"0 0 m 10 10 l S xyzzy 1 1 m 2 2 l S", extra={b"Type": Name(b"XObject"), b"Subtype": Name(b"Form"), b"BBox": [0, 0, 100, 100]}),
+    }
+    return docs.build_pdf(o, 1).getvalue()
+
+
+DOOMED = _doomed()
+
+
 def run(tape, ctx, item=None):
     t = tape
     devs = []
@@ -359,6 +379,22 @@ def run(tape, ctx, item=None):
     sel = {"all": None, "none": {57}, "first": {0}, "odd": {1, 3}}[selkind]
     if selkind != "all":
         ctx.probe("page selection: " + selkind)
+    if t.coin(10, 100, "doomed"):
+        # an earlier job in this process that ends with an exception in the middle of a form XObject (strict mode, unknown
+        # operator): whatever it leaves behind belongs to its own converter, not to the ones created afterwards
+        ctx.probe("earlier job aborted inside a form")
+        from pdfminer import settings as _settings
+
+        _settings.STRICT = True
+        try:
+            HL.extract_text_to_fp(io.BytesIO(DOOMED), io.BytesIO(), output_type=t.pick(["text", "xml", "html"], "doomed.type"), codec="utf-8")
+            raise core.HarnessError("the doomed document did not fail")
+        except core.HarnessError:
+            raise
+        except Exception:
+            pass
+        finally:
+            _settings.STRICT = False
     try:
         pages = list(HL.extract_pages(io.BytesIO(data), laparams=la(), page_numbers=sel))
     except Exception as e:
